@@ -50,7 +50,8 @@ def bases(tier):
 
 
 def describe(tier):
-    return {'bases': bases(tier), 'deviation_bound': 3, 'axes': AXES}
+    return {'bases': bases(tier), 'deviation_bound': 3, 'axes': AXES,
+            'long_base': '%s at deviation <= %d, every size incl. 6^6 products at deviation <= 1' % (LONG_BASE, 2 if tier == 'thorough' else 1)}
 
 
 def axes_for(n):
@@ -62,12 +63,18 @@ def axes_for(n):
     return ax
 
 
+LONG_BASE = 'PEKTWK'    # the upper end of the quantifier (length 6: 720 permutations, 462 multisets, 6^6 = 46656 tuples)
+
+
 def shards(tier):
     out = []
     for seq in bases(tier):
         for sh in space.dev_shards(axes_for(len(seq)), 3):
             sh['seq'] = seq
             out.append(sh)
+    for sh in space.dev_shards(axes_for(len(LONG_BASE)), 2 if tier == 'thorough' else 1):
+        sh['seq'] = LONG_BASE
+        out.append(sh)
     return out
 
 
@@ -103,9 +110,8 @@ def check(case, ctx):
     for name, it, count in ops:
         for size in list(range(1, n + 2)) + [None]:
             k = n if size is None else size
-            if name == 'product' and n ** k > 300:
-                continue
-            if name == 'combinations_with_replacement' and math.comb(n + k - 1, k) > 300:
+            cap = 50000 if len(case['slots']) <= 1 else 8000       # 6^6 = 46656 results lie inside the quantifier
+            if count(k) > cap:
                 continue
             expected = [with_units(P, ch) for ch in it(k)]
             if len(expected) != count(k):
@@ -133,7 +139,13 @@ def check(case, ctx):
                     ctx.fail('count', len(expected), len(got), call=call)
                     continue
                 nres += len(got)
+                big = len(got) > 3000      # large expansions: every 41st result plus both ends is compared field by field
                 for idx, (e, g) in enumerate(zip(expected, got)):
+                    if big and not (idx < 50 or idx >= len(got) - 50 or idx % 41 == 0):
+                        if (g if how == 'function' else None) is not None and not isinstance(g, str):
+                            ctx.fail('result-type', 'str', type(g).__name__, call=call, index=idx)
+                            break
+                        continue
                     if how == 'function':
                         stp, ga = lib.call(p.parse, g)
                         if stp != 'ok':
@@ -150,7 +162,7 @@ def check(case, ctx):
     for name, it, count in ops:
         kwname = 'repeat' if name == 'product' else 'size'
         for size in (1, n):
-            if name in ('product', 'combinations_with_replacement') and n ** size > 300:
+            if name in ('product', 'combinations_with_replacement') and n ** size > 3000:
                 continue
             a1 = lib.call(getattr(p, name), s, size)
             a2 = lib.call(getattr(p, name), s, **{kwname: size})
@@ -176,6 +188,22 @@ def check(case, ctx):
                     got2 = [x if isinstance(x, str) else x.serialize() for x in second] if st2 == 'ok' else second
                     if got2 != keep:
                         ctx.fail('result-after-editing-previous-result', keep, got2, call=[name, s, None, how])
+    # one parsed object used for all four expansions in turn (and twice over): each result equals the result for the text,
+    # and the object still writes the same text afterwards
+    obj = p.parse(s)
+    k2 = min(2, n)
+    for rnd in (1, 2):
+        for name, it, count in ops:
+            a1 = lib.call(getattr(p, name), s, k2)
+            a2 = lib.call(getattr(obj, name), k2)
+            ctx.evals += 2
+            got2 = [x.serialize() for x in a2[1]] if a2[0] == 'ok' else a2[1]
+            if a1[0] != a2[0] or (a1[0] == 'ok' and a1[1] != got2):
+                ctx.fail('reused-object', a1[1], got2, call=[name, s, k2, 'method'], round=rnd)
+                break
+    st9, s9 = lib.call(obj.serialize)
+    if st9 != 'ok' or pmodel.diff(pmodel.expected(P), pmodel.observed(p.parse(s9))):
+        ctx.fail('reused-object-changed', s, s9, text=s)
     ctx.outcome = [s, nres]
 
 
